@@ -47,6 +47,10 @@ class Report:
             text = short(node) if node is not None else ''
         text = norm_text(text)
         key = '|'.join([self.pid, rule, fq, text, norm_text(key_extra or '')])
+        for prev in self.obligations:
+            if prev['key'] == key and (prev['verdict'] == 'holds') == bool(ok):
+                self.rules[rule]['n'] -= 1
+                return ok
         o = dict(rule=rule, site=site, function=fq, text=text,
                  verdict='holds' if ok else 'violated', detail=norm_text(detail), why=norm_text(why),
                  key=key, nontrivial=bool(nontrivial))
@@ -156,6 +160,10 @@ class Report:
 
         print(f'{self.pid}: {len(self.obligations)} obligations, {discharged} hold, {len(listed)} known finding(s), '
               f'{len(new)} new violation(s); {len(self.functions)} functions; {wall:.2f}s [{self.tier}]')
+        if os.environ.get('SA_VERBOSE'):
+            for o in self.obligations:
+                print(f"   [{o['verdict']:8}] {o['rule']:7} {o['site']:45} {o['text'][:90]}  {o['detail'][:80]}")
+            print('   rule counts:', {k: v['n'] for k, v in self.rules.items()})
         for l in out_lines:
             print(l)
         if analysis_error is not None:
